@@ -33,9 +33,12 @@ package executable
 // ---------------------------------------------------------------------------------------------------------
 // C17: TERM / INT / KILL escalation: bounded (no loop; the only waits are the three constants), and it returns only
 // after the process was seen gone or SIGKILL was sent.
+// pid 0 is never "a process that exists": kill(0, sig) addresses the caller's own process group, so treating 0 as a
+// live task (a KILL arriving before the task has a pid) would make the executor signal itself
 //@ func pidExists(pid int) (b bool)
-//@   noverify
+//@   property C17
 //@   modifies nothing
+//@   ensures pid == 0 ==> !b
 
 //@ func (t *ControllableTask) doTermIntKill(pid int) (err error)
 //@   property C17
